@@ -967,8 +967,7 @@ theorem det_upper {b : Band K} (h : WFb b) (hm : b.m1 = 0) :
 end UpperDet
 
 section UpperE
-variable {F : Type} [Field F] [LinearOrder F]
-attribute [local instance] Ohsl.Alg.scalarExt
+variable {F : Type} [Field F] [DecidableEq F] [BEq F] [LawfulBEq F] [ScalarExt F] [Alg.DivLaw F]
 
 /-- the inner loop of the back substitution -/
 theorem back_dum {au : Mat F} {n mm : Nat} {e : Nat → Nat → F} (hau : Is au n mm e) (x : Array F)
@@ -1039,7 +1038,7 @@ theorem solve_sound_upper {b : Band F} (h : WFb b) (hm : b.m1 = 0) {rhs x : Arra
       have hdum := back_dum hau' x q1 hi (l := l) (by omega) (by omega) (by omega) x[i]
       have hp := hau'.get hi (show 0 < b.m1 + b.m2 + 1 by omega)
       simp only [bind, Except.bind, pure, Except.pure] at hdum hf
-      simp only [aget_ok hix, hdum, hp, Alg.divM_eq] at hf
+      simp only [aget_ok hix, hdum, hp, Alg.divM_law] at hf
       by_cases hp0 : Mat.entryOf b.compact i 0 = 0
       · simp [hp0] at hf
       · simp only [hp0, if_false, aset_ok _ hix] at hf
@@ -1122,16 +1121,15 @@ theorem solve_upper_complete {b : Band F} (h : WFb b) (hm : b.m1 = 0) {rhs : Arr
     have := hd i hi
     rwa [dense_of_is h.is (by unfold inBand; omega) hi hi, show b.m1 + i - i = 0 by omega] at this
   simp only [bind, Except.bind, pure, Except.pure] at hdum ⊢
-  simp only [aget_ok hix, hdum, hp, Alg.divM_eq, if_neg hp0, aset_ok _ hix]
+  simp only [aget_ok hix, hdum, hp, Alg.divM_law, if_neg hp0, aset_ok _ hix]
   refine ⟨_, rfl, by simpa using q1, by simp only; split <;> omega⟩
 
 end UpperE
 
 /-! ### the compact LU with row exchanges (`bandec`) and the two substitution loops (`banbks`),
-    over a linearly ordered field: `solve` is sound for every `m1 ≤ n` -/
+    over an exact field (`Alg.DivLaw`; any pivot comparison): `solve` is sound for every `m1 ≤ n` -/
 section FullLU
-variable {F : Type} [Field F] [LinearOrder F]
-attribute [local instance] Ohsl.Alg.scalarExt
+variable {F : Type} [Field F] [DecidableEq F] [BEq F] [LawfulBEq F] [ScalarExt F] [Alg.DivLaw F]
 
 /-- the multiplier of row `i` against pivot row `k` (zero when the pivot is zero) -/
 def mult (e : Nat → Nat → F) (k i : Nat) : F := if e k 0 = 0 then 0 else e i 0 / e k 0
@@ -1186,7 +1184,7 @@ theorem decElim_spec {au al : Mat F} {n mm m1 : Nat} {e ea : Nat → Nat → F}
       simp only [g1, g2, hp, beq_self_eq_true, if_true, ha', h1, h2]
     · have hm : mult e k i = e i 0 / e k 0 := by simp [mult, hp]
       rw [hm] at ha' h1
-      simp only [g1, g2, hb, hp, if_false, Alg.divM_eq, ha', h1, h2]
+      simp only [g1, g2, hb, hp, if_false, Alg.divM_law, ha', h1, h2]
   · intro a b _ _
     ifs_omega
 
@@ -1792,7 +1790,7 @@ theorem back_spec {au : Mat F} {n mm : Nat} {e : Nat → Nat → F} (hau : Is au
       have hdum := back_dum hau x q1 hi (l := l) (by omega) (by omega) (by omega) x[i]
       have hp := hau.get hi hmm
       simp only [bind, Except.bind, pure, Except.pure] at hdum hf
-      simp only [aget_ok hix, hdum, hp, Alg.divM_eq] at hf
+      simp only [aget_ok hix, hdum, hp, Alg.divM_law] at hf
       by_cases hp0 : e i 0 = 0
       · simp [hp0] at hf
       · simp only [hp0, if_false, aset_ok _ hix] at hf
@@ -1952,7 +1950,7 @@ theorem back_total {au : Mat F} {n mm : Nat} {e : Nat → Nat → F} (hau : Is a
   have hdum := back_dum hau x q1 hi (l := l) (by omega) (by omega) (by omega) x[i]
   have hpg := hau.get hi hmm
   simp only [bind, Except.bind, pure, Except.pure] at hdum ⊢
-  simp only [aget_ok hix, hdum, hpg, Alg.divM_eq, if_neg (hp i hi), aset_ok _ hix]
+  simp only [aget_ok hix, hdum, hpg, Alg.divM_law, if_neg (hp i hi), aset_ok _ hix]
   exact ⟨_, rfl, by simpa using q1, by simp only; split <;> omega⟩
 
 /-- (E) **a non-zero computed determinant guarantees that `solve` succeeds** (and then
